@@ -99,7 +99,25 @@ def structural(E, n):
     """Swap, Copy, Discard of any width; naturality for uninterpreted f"""
     from discopy.cartesian import Id, Swap, Copy, Discard
     kind = E.choice('kind', ['swap', 'copy', 'discard', 'nat-swap',
-                             'nat-copy', 'nat-discard'])
+                             'nat-copy', 'nat-discard', 'identity'])
+    if kind == 'identity':
+        # box-less diagrams follow the same return convention as any other
+        # (a single wire is returned as a value, not as a 1-tuple)
+        from discopy.cartesian import untuplify
+        m = E.choice('m', range(n + 1))
+        xs = [E.int('x%d' % i) for i in range(m)]
+        for d in (Id(m), Swap(m, 0), Swap(0, m), Id(m) @ Id(0)):
+            got = d(*xs)
+            E.check(isinstance(got, tuple) == (m != 1),
+                    "C19:identity:return-convention", info="%s on %d" % (d, m))
+            got = got if isinstance(got, tuple) else (got,)
+            E.check(same(got, tuple(xs)), "C19:identity:wrong-output")
+        if m == 1:
+            lhs = (Copy(1) >> Id(1) @ Discard(1))(*xs)
+            E.check(not isinstance(lhs, tuple) and bool(lhs == xs[0]),
+                    "C19:identity:counit")
+        E.cover(kind)
+        return
     if kind == 'swap':
         l, r = E.choice('l', range(n + 1)), E.choice('r', range(n + 1))
         xs = [E.int('x%d' % i) for i in range(l + r)]
@@ -183,7 +201,7 @@ def harnesses(tier):
                     timeout_s=T))
     hs.append(H("structural", structural, dict(n=3 if q else 4), FUNCS,
                 covers=['swap', 'copy', 'discard', 'nat-swap', 'nat-copy',
-                        'nat-discard'], engine="DSE + EUF",
+                        'nat-discard', 'identity'], engine="DSE + EUF",
                 bounds="Swap(l, r), Copy(n), Discard(n) for all l, r, n <= %d;"
                 " naturality for uninterpreted boxes of arity <= 2"
                 % (3 if q else 4), timeout_s=T))
